@@ -98,5 +98,18 @@ func init() {
 					}
 				}
 			}, newCPUEnv, c05Check)
+		// the same machine built with the CPU's instruction trace on (Config.DebugCPU): a legal configuration
+		quietStdout(func() {
+			explore.Product(c.R, "halt-followers-with-cpu-trace", explore.PartOpt{Bound: "idle lengths 0..4 cycles", Domain: "16 follower opcodes x IME x 13 IE/IF combinations x 5 sources, CPU built with DebugCPU"},
+				func(yield func(c05Block) bool) {
+					for _, op := range []int{0x00, 0x3c, 0x04, 0x76, 0xfb, 0xf3, 0x18, 0xc3, 0xcd, 0xc9, 0x34, 0xe0, 0x256 + 0x40 - 0x56, 0x100 + 0xc6, 0x100 + 0x37, 0x3e} {
+						for _, ime := range []bool{false, true} {
+							if !yield(c05Block{Follower: op, IME: ime, MaxIdle: 4}) {
+								return
+							}
+						}
+					}
+				}, newCPUEnvTrace, c05Check)
+		})
 	})
 }
